@@ -267,7 +267,14 @@ def mon_optimize(case, ev, check_optimality=True, time_limit=30., scaled_only=Fa
         if ref['status'] == 'optimal':
             tolv = (solve.TOL_VAL_MIP if is_mip else solve.TOL_VAL) * (1. + abs(ref['value']))
             case.check('opt.no_better_point', float(res.value) >= ref['value'] - tolv, **info, value=float(res.value), reference=ref['value'])
-            case.check('opt.not_above_optimum', float(res.value) <= ref['value'] + tolv, **info, value=float(res.value), reference=ref['value'])
+            above = float(res.value) > ref['value'] + tolv
+            witness_ok = (r['bound'] <= solve.TOL_FEAS and r['rows'] <= solve.TOL_FEAS and (not is_mip or r['int'] <= solve.TOL_INT))
+            if above and witness_ok and abs(float(res.value) - float(-np.dot(s.c, x))) <= tolv:
+                # a point that passes the exact residual test and is worth more than the reference's "optimum" refutes the reference (scipy's HiGHS
+                # returned sub-optimal MILP "optima" more than once), not the code under test
+                case.event('reference_optimum_refuted_by_returned_point'); case.stats['reference_wrong'] += 1
+            else:
+                case.check('opt.not_above_optimum', not above, **info, value=float(res.value), reference=ref['value'])
         elif ref['status'] == 'infeasible':
             # The returned point itself decides feasibility (clauses above, exact residuals). If it passes them it is a witness that refutes the
             # reference's verdict (scipy's HiGHS was caught declaring feasible MILPs infeasible with either presolve setting): optimality of this
